@@ -165,6 +165,10 @@ def rand_case(rng, max_dim, empty_axis=False, all_zero=False, writer=None):
             'writer': writer or rng.choice(['to_hdf5', 'to_hdf5', 'biom_open', 'save_table'])}
     if rng.random() < 0.3:
         case['np_md'] = True          # the caller's numbers are numpy scalars (what pandas / a loaded table hold)
+    if rng.random() < 0.3:
+        case['prelude'] = True        # history across calls: an earlier to_hdf5 with custom format_fs for these categories
+    if rng.random() < 0.3 and not any(isinstance(x, list) or x in ('transpose2', 'copy') for x in spec['layout'][1:]):
+        case['ids_as'] = rng.choice(ID_CONTAINERS)      # how the caller handed the ids to the constructor
     if rng.random() < 0.4:
         case['gen2'] = True           # history: write, load, write the loaded table again, load
     return case
@@ -192,6 +196,42 @@ def np_md(md):
     return None if md is None else [None if m is None else {k: conv(v) for k, v in m.items()} for m in md]
 
 
+ID_CONTAINERS = ['object', 'index', 'series', 'tuple', 'npstr']
+
+
+def ids_as(kind, ids):
+    """the same ids in another container a caller may hand to the constructor"""
+    if kind == 'object':
+        return np.array(list(ids), dtype=object)
+    if kind in ('index', 'series'):
+        import pandas as pd
+        return pd.Index(list(ids), dtype=object) if kind == 'index' else pd.Series(list(ids), dtype=object)
+    if kind == 'tuple':
+        return tuple(ids)
+    if kind == 'npstr':
+        return [np.str_(x) for x in ids]
+    return list(ids)
+
+
+def _build_direct(spec, lay, kind):
+    """constructor call with the ids in the given container; only layout steps that keep the table object
+    (sort_order / copy / transpose make a new table whose ids are a fresh fixed-width array)"""
+    from biom import Table
+    M = np.array(spec['mat'], dtype=float).reshape(len(spec['oids']), len(spec['sids']))
+    first = lay[0] if isinstance(lay[0], str) and lay[0] in tables.INITIAL else 'dense'
+    kw = {'input_is_dense': True} if first == 'lists' and M.size else {}
+    t = Table(tables._initial(first, M), ids_as(kind, spec['oids']), ids_as(kind, spec['sids']),
+              tables._cp(spec.get('omd')), tables._cp(spec.get('smd')), type=spec.get('type'), **kw)
+    for step in lay[1:]:
+        if step == 'colaccess' and t.shape[0] and t.shape[1]:
+            t.data(t.ids()[0], axis='sample')
+        elif step == 'rowaccess' and t.shape[0] and t.shape[1]:
+            t.data(t.ids(axis='observation')[0], axis='observation')
+        elif step == 'nnz':
+            t.nnz
+    return t
+
+
 def build_table(case):
     """tables.build replays the public-API layout recipe; two further steps edit the held matrix in
     place through the public `matrix_data` property (the live scipy object), which is the one
@@ -213,7 +253,7 @@ def build_table(case):
     bspec = dict(spec, mat=mat, layout=lay)
     if case.get('np_md'):
         bspec['omd'], bspec['smd'] = np_md(spec.get('omd')), np_md(spec.get('smd'))
-    t = tables.build(bspec)
+    t = _build_direct(bspec, lay, case['ids_as']) if case.get('ids_as') else tables.build(bspec)
     d = t.matrix_data
     if cells:
         for i, j in cells:
@@ -257,7 +297,36 @@ def layout_tag(st):
                                 'zeros' if 0 in st['data'] else 'nozeros')
 
 
+def write_prelude(case):
+    """history across calls: BEFORE the case's own write, an unrelated scratch table is written with custom
+    `format_fs` for every category name the case uses (and the usual suspects).  Nothing of it may leak into
+    the case's default write."""
+    from biom import Table
+    from biom.table import H5PY_VLEN_STR
+    s = case.get('spec') or {}
+    names = {'taxonomy', 'Taxonomy', 'KEGG_Pathways', 'collapsed_ids', 'barcode', 'BarcodeSequence'}
+    for ax in ('omd', 'smd'):
+        for m in (s.get(ax) or []):
+            names.update((m or {}).keys())
+
+    def loud(grp, header, md, compression):
+        grp.create_dataset('metadata/%s' % header.replace('/', '@@SLASH@@'), shape=(len(md),), dtype=H5PY_VLEN_STR,
+                           data=[('custom:%s' % (m[header],)).upper().encode('utf8') for m in md], compression=compression)
+    names = sorted(names)
+    scratch = Table(np.array([[1.0, 0.0], [2.0, 3.0]]), ['x1', 'x2'], ['y1', 'y2'],
+                    [{k: 'acgt' for k in names}, {k: 'ttga' for k in names}], [{k: 'v' for k in names}, {k: 'w' for k in names}])
+    path = tmpfile()
+    try:
+        with h5py.File(path, 'w') as f:
+            scratch.to_hdf5(f, 'prelude', format_fs={k: loud for k in names})
+    finally:
+        if os.path.exists(path):
+            os.remove(path)
+
+
 def write_table(t, case, path):
+    if case.get('prelude'):
+        write_prelude(case)
     date = datetime.datetime.fromisoformat(case['date'])
     w = case.get('writer', 'to_hdf5')
     if w == 'to_hdf5':
@@ -569,7 +638,7 @@ def classify_case(case, st=None):
         if not m:
             tags.append('md:none')
             continue
-        for k, v in m[0].items():
+        for k, v in (m[0] or {}).items():
             tags.append('md:%s%s' % ('list' if isinstance(v, list) else type(v).__name__, '+slash' if '/' in k else ''))
     lay = s.get('layout') or ['dense']
     tags.append('recipe:%s' % (lay[0] if isinstance(lay[0], str) else lay[0][0]))
